@@ -18,6 +18,7 @@ classes
   LAST    x[c] / del x[c] with constant index on a named local list/tuple
   MAPKEY  m[k] / del m[k] on a value that is a mapping at that point
   TABLE   T[k] on a folded constant dict
+  MEMO    a call of a function wrapped by functools.lru_cache / cache with an argument that may be unhashable
 """
 
 from __future__ import annotations
@@ -408,6 +409,8 @@ class PartialOps:
                 self._codec(fn, node, out, ext)
             elif name == "len" and len(node.args) == 1:
                 self._sized(fn, node, out)
+            elif site is not None and site.callees and any(self._memoised(c) for c in site.callees):
+                self._memo(fn, node, out)
             elif (name == "getitem" and len(node.args) == 2) or (
                 site is not None and site.callees and all(c.qualname in self.getitem_wrappers for c in site.callees)
                 and len(node.args) == 2
@@ -424,6 +427,33 @@ class PartialOps:
                     self._order(fn, node, left, right, out)
         elif isinstance(node, ast.Subscript):
             self._subscript(fn, node, out)
+
+    # ----------------------------------------------------------------- MEMO
+    @staticmethod
+    def _memoised(callee: FuncInfo) -> bool:
+        """Wrapped by functools.lru_cache / cache: the arguments are hashed before the body (and any `try` in it) runs."""
+        for d in getattr(callee.node, "decorator_list", []):
+            t = d.func if isinstance(d, ast.Call) else d
+            nm = t.attr if isinstance(t, ast.Attribute) else (t.id if isinstance(t, ast.Name) else None)
+            if nm in ("lru_cache", "cache"):
+                return True
+        return False
+
+    def _memo(self, fn: FuncInfo, node: ast.Call, out: List[PSite]) -> None:
+        for a in list(node.args) + [k.value for k in node.keywords]:
+            if isinstance(a, ast.Starred):
+                a = a.value
+            if isinstance(a, ast.Constant):
+                continue
+            names = self._tynames(fn, a)
+            if names is not None and names <= HASHABLE_TYPES - {"tuple"}:
+                continue
+            ks = self._kinds(fn, node, a)
+            if ks is not None and ks <= {STRING, INT, FLOAT, BOOLEAN, "null"}:
+                continue
+            out.append(PSite(fn, node, "MEMO", ["TypeError"], note=f"`{ast.unparse(a)}` is hashed by the memoising wrapper and may be unhashable"))
+            return
+        out.append(PSite(fn, node, "MEMO", [], discharged="every argument of the memoised call is hashable"))
 
     # ----------------------------------------------------------------- CONV
     def _token_shapes(self, fn: FuncInfo, site: ast.AST, operand: ast.expr) -> Optional[Tuple[List[str], str]]:
